@@ -223,7 +223,8 @@ func runC07(t *vs.Tape, cfg map[string]string) (res vs.Result) {
 			}
 		}
 		sc := &simdisk.SeedChooser{S: tornSeed + 17}
-		for len(keep) < 100 {
+		// (bounded: the range may hold fewer than 100 distinct points)
+		for tries := 0; len(keep) < 100 && tries < 2000; tries++ {
 			keep[base+sc.Intn(len(log)-base+1, "thin")] = true
 		}
 		c.Inc("runs_crash_points_thinned")
